@@ -28,7 +28,13 @@ RULE = ('random 1-3-D sources (axis lengths 0-12) labelled injectively in C orde
         'every indexer is asked three times (request, self[:], the request again) and its shape / dtype / len() are '
         'read before and after; a case is one (source kind, shape(s), dtype(s), stage 1, transforms, stage 2, API form); '
         'values, shape AND dtype of every answer are compared; non-trivial when the implementation returns at least '
-        'one element through a non-full selection or exercises the rejection clause; distinct by canonical case')
+        'one element through a non-full selection or exercises the rejection clause; distinct by canonical case'
+        ' Histories (round 7): one LazyIndexer on an ndarray / h5py source answers index, 1-4 further requests, index again; '
+        'index arrays are the caller\'s own ndarrays and every answer is overwritten by the caller; after every read the answer '
+        'is compared with a fresh indexer, self._lookup / the caller\'s arrays / the source with their snapshots, the recorded '
+        'dataset[...] requests with the model (wire 55) and with h5py\'s rule; half of the histories start in the hazard zone '
+        '(dense strategy through a view of the lookup or the caller\'s array). h5py differential: every integer in [-8, 8], '
+        'every slice with bounds in [-7, 7] and steps -2..3, some index lists on axis lengths 0-5 (wire 56).')
 ASSUMPTIONS = [
     'boolean masks have the length of their axis (other lengths are outside the model)',
     'first-stage integer keeps its axis with length 1 (LazyIndexer convention self[:].shape); the spec uses the same convention',
